@@ -174,6 +174,7 @@ class SchedWriter(HistActor):
         timeout = tx.get("timeout", 5.0)
         kw["timeout"] = timeout
         kw["delay"] = tx.get("delay", 0.1)
+        kw.update(getattr(self, "extra_writer_kwargs", None) or {})
         k.event("step", "tx.begin")
         a = k.seq
         t0 = k.time()
